@@ -8,18 +8,21 @@ cosmetics (column widths, arrows).
 import ast
 import re
 
-_head = re.compile(r'^\s*(?P<time>-?\d+\.\d{4}) (?P<conn>\w*): (?P<sent>→ )?')
+_head = re.compile(r'^\s*(?P<time>-?\d+\.\d+) (?P<conn>\w*): (?P<mark>[^\w\s?@]+ )?')
+SENT_MARKS = ('→', '->', '=>', '»', '>')
+RECV_MARKS = ('←', '<-', '<=', '«', '<', '↲')
 _obj = r'(?P<unres>unresolved )?(?P<type>[^\s@(),]+)@(?P<id>\d+)(?P<gen>[a-z]+|\?)'
 _target = re.compile(_obj + r'\.(?P<name>\w+)\(')
 _objval = re.compile(r'^(?P<new>new )?' + _obj + r'$')
-_tail = re.compile(r'^(?: -- (?P<dobj>.+?)\.destroyed(?: after (?P<after>-?\d+\.\d{4})s)?)?(?P<recv> ↲)?$')
+_tail = re.compile(r'^(?: -- (?P<dobj>.+?)\.destroyed(?: after (?P<after>-?\d+\.\d+)s)?)?(?P<recv> [^\w\s]+)?$')
 _notice = re.compile(r'^(?P<what>New|Closed) (?P<role>client|server|unknown type) connection (?P<conn>\w+)$')
-_sep = re.compile(r'^\s*───┤ (?P<gap>-?\d+\.\d{4})s ├───$')
-_count = re.compile(r"^\((?P<matched>\d+) matched, (?P<didnt>\d+) didn't(?:, (?P<notchecked>\d+) not checked)?\)$")
-_none_of = re.compile(r'^ ╰╴ None of the (?P<n>\d+) messages so far$')
-_header = re.compile(r'^Messages that match (?P<matcher>.*?)(?: on connection (?P<conn>\w+))?:$')
+_sep = re.compile(r'^\s*[^\w\s]+ (?P<gap>-?\d+\.\d+)s [^\w\s]+$')
+# the three counts of `list`, wherever and however they are decorated
+_count = re.compile(r"(?P<matched>\d+) matched\b.*?(?P<didnt>\d+) didn't(?: match)?(?:.*?(?P<notchecked>\d+) not checked)?")
+_none_of = re.compile(r'\bNone of the (?P<n>\d+) messages?\b')
+_header = re.compile(r'^(?:Messages|Last (?:\d+ )?messages?) that match(?:es)? (?P<matcher>.*?)(?: on connection (?P<conn>\w+))?:$')
 _stopped = re.compile(r'^\s*Stopped at (?P<rest>.*)$')
-_pass = re.compile(r'^ {6} \|  (?P<text>.*)$')
+_pass = re.compile(r'^\s*[|│┃¦] {1,3}(?P<text>.*)$')
 
 
 class ParseError(Exception):
@@ -113,7 +116,10 @@ def parse_value(v):
         return {'kind': 'array', 'values': None}
     if v.startswith('[') and v.endswith(']'):
         inner, _ = _scan_args(v[1:-1] + ')', 0)
-        return {'kind': 'array', 'values': [parse_arg(x) for x in inner]}
+        try:
+            return {'kind': 'array', 'values': [parse_arg(x) for x in inner]}
+        except ParseError:
+            return {'kind': 'array', 'values': None, 'text': v}      # e.g. a size instead of the elements
     if v.startswith('Unknown: '):
         try:
             return {'kind': 'unknown', 'text': ast.literal_eval(v[len('Unknown: '):])}
@@ -140,9 +146,11 @@ def parse_arg(a):
 
 def parse_message_body(s):
     """Parse `[→ ]type@id.name(args)[ -- x.destroyed after Ns][ ↲]`."""
-    sent = s.startswith('→ ')
-    if sent:
-        s = s[2:]
+    mark = None
+    mm = re.match(r'^([^\w\s?@]+) ', s)
+    if mm:
+        mark = mm.group(1)
+        s = s[mm.end():]
     m = _target.match(s)
     if not m:
         raise ParseError('no target: ' + s)
@@ -151,10 +159,18 @@ def parse_message_body(s):
     t = _tail.match(s[j:])
     if not t:
         raise ParseError('bad tail: ' + s[j:])
+    # direction: a glyph before the object or after the line; which glyphs are used is presentation
+    tailmark = t.group('recv').strip() if t.group('recv') else None
+    if mark in SENT_MARKS and tailmark is None:
+        sent = True
+    elif (mark in RECV_MARKS and tailmark is None) or (mark is None and tailmark is not None):
+        sent = False
+    elif mark is None and tailmark is None:
+        sent = None
+    else:
+        raise ParseError('direction markers inconsistent: ' + s)
     rec = {'sent': sent, 'obj': obj, 'name': m.group('name'), 'args': [parse_arg(a) for a in args],
            'destroyed': None}
-    if sent == bool(t.group('recv')):
-        raise ParseError('direction markers inconsistent: ' + s)
     if t.group('dobj'):
         d = parse_obj(t.group('dobj'))
         d['after'] = t.group('after')
@@ -167,7 +183,7 @@ def classify(line):
     m = _head.match(line)
     if m:
         try:
-            rec = parse_message_body(line[m.end() - (2 if m.group('sent') else 0):])
+            rec = parse_message_body(line[m.end() - (len(m.group('mark')) if m.group('mark') else 0):])
         except ParseError as e:
             return 'other', {'text': line, 'error': str(e)}
         rec['time'] = m.group('time')
@@ -183,13 +199,13 @@ def classify(line):
     m = _pass.match(line)
     if m:
         return 'passthrough', {'text': m.group('text')}
-    m = _count.match(line)
-    if m:
+    m = _count.search(line)
+    if m and not _head.match(line):
         return 'count', {k: int(v) if v is not None else 0 for k, v in m.groupdict().items()}
-    m = _none_of.match(line)
+    m = _none_of.search(line)
     if m:
         return 'none_of', {'n': int(m.group('n'))}
-    if line == ' ╰╴ No messages yet':
+    if 'No messages yet' in line:
         return 'no_messages', {}
     m = _header.match(line)
     if m:
@@ -206,3 +222,26 @@ def classify(line):
 def label(o):
     """type@id+letters as displayed."""
     return '%s@%d%s' % (o['type'] if o['type'] else '???', o['id'], o['gen'] if o['gen'] is not None else '?')
+
+
+_listing = re.compile(r'^\s*(?P<mark>=> )?(?P<name>\w+) \((?P<what>[^)]*)\): (?P<state>open|closed), (?P<n>\d+) messages?\b')
+
+
+def connection_line(line):
+    """One line of the `connection` listing -> dict(name, role, closed, selected, messages) or None.
+    Tolerant of additions after the message count and of singular/plural."""
+    m = _listing.match(line)
+    if not m:
+        return None
+    what = m.group('what')
+    role = 'unknown' if 'unknown' in what else ('server' if what.startswith('server') else ('client' if what.startswith('client') else what))
+    return {'name': m.group('name'), 'role': role, 'closed': m.group('state') == 'closed' or ', closed' in what,
+            'selected': bool(m.group('mark')), 'messages': int(m.group('n')), 'state': m.group('state')}
+
+
+def queried_matcher(lines):
+    """The matcher printed by a no-argument `filter` / `breakpoint` query: the text after the first `: `."""
+    for l in lines:
+        if ': ' in l:
+            return l.split(': ', 1)[1].strip()
+    return None
